@@ -650,7 +650,6 @@ func pbTagAgreement(c *an.Check, pkgs func(rel string) bool) {
 	}())
 }
 
-
 // nilProducers: pem.Decode (nil block when no PEM data is found) and generated getters of message-typed protobuf fields
 // (nil when the field is absent on the wire).
 func nilProducers(call *ssa.Call) bool {
@@ -673,7 +672,6 @@ func nilProducers(call *ssa.Call) bool {
 	}
 	return false
 }
-
 
 // nilSafeRecv: a method tolerates a nil receiver when its body touches the receiver only by calling other nil-safe
 // methods on it or comparing it (generated getters check for nil; so do hand-written validators built from getters).
